@@ -136,6 +136,15 @@ func init() {
 		skelTarget{Name: "C04.RunAndLogLines", File: "pkg/executor/executor.go", Recv: "Executor", Func: "RunAndLogLines",
 			Fields: []string{"ProcessState"},
 			Calls:  []string{"Run", "Start", "Wait", "ExitCode", "Exited", "Success", "Errorf", "Bytes", "Signaled"}},
+		// Model/Payload.updateSnapshots: a NEW list is built from struct copies (make, append), Snapshots / Objects
+		// are written on the copy; Model/Payload.hookRunH: Hook.Run writes the file from the refreshed copy and
+		// writes no Objects / Snapshots itself
+		skelTarget{Name: "C04.UpdateSnapshots", File: "pkg/hook/controller/hook_controller.go", Recv: "HookController", Func: "UpdateSnapshots",
+			Fields: []string{"Snapshots", "Objects", "IncludeSnapshots", "BindingType", "Type", "Binding", "KubernetesController"},
+			Calls:  []string{"make", "append", "SnapshotsFor", "getIncludeSnapshotsFrom"}},
+		skelTarget{Name: "C04.HookRun", File: "pkg/hook/hook.go", Recv: "Hook", Func: "Run",
+			Fields: []string{"Snapshots", "Objects", "BindingContext"},
+			Calls:  []string{"UpdateSnapshots", "ConvertBindingContextList", "prepareBindingContextJsonFile", "RunAndLogLines"}},
 	)
 }
 
